@@ -35,6 +35,12 @@ type allocConcCase struct {
 	// the Blocks addresses the history works on, which are scattered over the range - a nearly full large
 	// range, where every search for a free address is a long one
 	Big int `json:"big,omitempty"`
+	// FreshN > 0 (IPv4): a range of this many addresses that nobody has touched before the goroutines start:
+	// the very first calls an allocator ever sees arrive at once (the history stays within its first Blocks addresses)
+	FreshN int `json:"fresh_n,omitempty"`
+	// Lone: one goroutine allocates a block and frees it again, over and over, while the others keep freeing
+	// blocks nobody holds: most of the time exactly one block - or none - is outstanding
+	Lone bool `json:"lone,omitempty"`
 }
 
 type allocConcEngine struct{}
@@ -48,6 +54,11 @@ func (allocConcEngine) Gen(rng *rand.Rand, tier string, i int) any {
 	if rng.Intn(2) == 0 {
 		c.V4 = true
 		c.Blocks = 1 + rng.Intn(16)
+		if rng.Intn(8) == 0 {
+			c.FreshN = []int{1 << 24, 1 << 22, 1 << 26, 70000}[rng.Intn(4)]
+			c.Blocks, c.G, c.PerG = 16, 4+rng.Intn(5), 2
+			return c
+		}
 		if rng.Intn(6) == 0 {
 			c.Big = []int{300000, 524288, 400001, 262144 + 64 + rng.Intn(100000)}[rng.Intn(4)]
 			c.Blocks = 4 + rng.Intn(13)
@@ -59,6 +70,13 @@ func (allocConcEngine) Gen(rng *rand.Rand, tier string, i int) any {
 		c.Blocks = 1 << uint(k)
 		c.Page = []int{64, 65, 70, 128, 56, 63}[rng.Intn(6)]
 		c.PoolLen = c.Page - k
+	}
+	if c.Big == 0 && c.FreshN == 0 && rng.Intn(8) == 0 {
+		c.Lone = true
+		c.G, c.PerG = 3+rng.Intn(3), 1200
+		if c.Blocks < 2 {
+			c.Blocks, c.PoolLen = 2, c.Page-1
+		}
 	}
 	return c
 }
@@ -137,6 +155,10 @@ func (allocConcEngine) Run(ctx *fw.Ctx, cs any) {
 		if c.Big > 0 {
 			start, n = uint32(0x0a000000)+uint32(c.Seed&0xff), c.Big
 		}
+		if c.FreshN > 0 {
+			start, n = uint32(0x0a000000), c.FreshN
+			ctx.Count("allocconc.fresh_large_ranges", 1)
+		}
 		pool = &model.Pool{V4: true, Start: new(big.Int).SetUint64(uint64(start)), N: uint64(n), Page: 32}
 		a, err = bitmap.NewIPv4Allocator(u32ip(start), u32ip(start+uint32(n)-1))
 	} else {
@@ -200,6 +222,45 @@ func (allocConcEngine) Run(ctx *fw.Ctx, cs any) {
 			<-startGate
 			rehint := -1
 			for i := 0; i < c.PerG; i++ {
+				if c.Lone {
+					// goroutine 0: Allocate (no hint), Free what it got; the others: Free of a block nobody holds
+					// (a random one: when it happens to be goroutine 0's, it is released - that is in the model)
+					if g == 0 {
+						call := clock()
+						got, err := a.Allocate(net.IPNet{})
+						ret := clock()
+						out := acOut{OK: err == nil, Idx: -1}
+						if err == nil {
+							if v, ok := pool.AddrValue(got.IP); ok {
+								if idx, in, al := pool.Locate(v); in && al {
+									out.Idx = int(idx)
+								}
+							}
+						}
+						local = append(local, porcupine.Operation{ClientId: g, Input: acIn{Hint: -1}, Call: call, Output: out, Return: ret})
+						if out.Idx >= 0 {
+							t := net.IPNet{IP: pool.IP(pool.BlockBase(int64(out.Idx))), Mask: net.CIDRMask(32, 32)}
+							if !c.V4 {
+								t.Mask = net.CIDRMask(c.Page, 128)
+							}
+							call = clock()
+							err = a.Free(t)
+							ret = clock()
+							local = append(local, porcupine.Operation{ClientId: g, Input: acIn{Free: true, Hint: out.Idx}, Call: call, Output: acOut{OK: err == nil}, Return: ret})
+						}
+						continue
+					}
+					b := rng.Intn(c.Blocks)
+					t := net.IPNet{IP: pool.IP(pool.BlockBase(int64(b))), Mask: net.CIDRMask(32, 32)}
+					if !c.V4 {
+						t.Mask = net.CIDRMask(c.Page, 128)
+					}
+					call := clock()
+					err := a.Free(t)
+					ret := clock()
+					local = append(local, porcupine.Operation{ClientId: g, Input: acIn{Free: true, Hint: b}, Call: call, Output: acOut{OK: err == nil}, Return: ret})
+					continue
+				}
 				if rehint < 0 && (rng.Intn(100) < 8 || (len(mine) > 0 && rng.Intn(100) < 45)) {
 					var b int
 					if len(mine) == 0 || rng.Intn(100) < 15 {
@@ -274,6 +335,9 @@ func (allocConcEngine) Run(ctx *fw.Ctx, cs any) {
 	ctx.Count("allocconc.ops", int64(len(ops)))
 	ctx.Count("allocconc.overlapping_pairs", int64(overlaps))
 	ctx.Count("allocconc.histories", 1)
+	if c.Lone {
+		ctx.Count("allocconc.lone_holder_histories", 1)
+	}
 	res, info := porcupine.CheckOperationsVerbose(allocModel(c.Blocks), ops, 30*time.Second)
 	_ = info
 	for _, p := range []string{"C04", "C05", "C06", "C16"} {
